@@ -289,13 +289,15 @@ class Equation:
         Return a list of ranks in the tensor
         """
         str_ranks = []
-        for ijust in ranks.find_data("ijust"):
-            rank = ParseUtils.next_str(ijust).upper()
-            str_ranks.append(rank)
+        # Collect the index variables in the order they are written
+        for tree in ranks.iter_subtrees_topdown():
+            if tree.data == "ijust":
+                rank = ParseUtils.next_str(tree).upper()
+                str_ranks.append(rank)
 
-        for itimes in ranks.find_data("itimes"):
-            rank = str(itimes.children[1]).upper()
-            str_ranks.append(rank)
+            elif tree.data == "itimes":
+                rank = str(tree.children[1]).upper()
+                str_ranks.append(rank)
 
         return str_ranks
 
